@@ -27,8 +27,8 @@
  'assumptions': ['sig_ok: the first parameter of a registered custom function accepts *transformctx.Ctx '
                  '(registration is caller code, outside the claim)',
                  'guards of the known findings (KNOWN_FINDINGS.txt, property C03): tpl_small (N3), groups_small (N4), '
-                 'js_no_map_set (N8), csv_rows_small (N10, failing-reader runs only); the main generators stay inside them, the recorded inputs are replayed from '
+                 'js_no_map_set (N8); the main generators stay inside them, the recorded inputs are replayed from '
                  'replays/corpus/C03 on every run (N8 in a process of its own); the classes of the repaired N1, N2, N5, '
-                 'N6, N7 are exercised by the generators',
+                 'N6, N7, N9, N10 are exercised by the generators (failing-reader runs use any header / data row index)',
                  'read bound: a finite input of n bytes reaches a terminal result within n+2 Reads (the '
                  'constant the harness enforces), also when the input reader fails persistently after those n bytes']}
